@@ -17,15 +17,15 @@ Definition d4_schedule : list label :=
    LObsStarted 0; LStoppedGet 0; LStopCall 1 0; LT 1 CStep; LT 1 CStep].
 
 Lemma d4_refuted :
-  let s := run (rinit false true true) d4_schedule in
+  let s := run (rinit false true true true) d4_schedule in
   h_startedCh (hs s 0) = true /\ h_stoppedSet (hs s 0) = false /\ thr s 1 = TStopDone 0 true StopNilPanic
-  /\ verdict (hist (rinit false true true) d4_schedule) = 4.
+  /\ verdict (hist (rinit false true true true) d4_schedule) = 4.
 Proof. vm_compute. repeat split. Qed.
 
 Lemma d4_fixed_witness :
-  let s := run (rinit true true true) d4_schedule in
+  let s := run (rinit true true true true) d4_schedule in
   h_stoppedSet (hs s 0) = true /\ thr s 1 = TStopDone 0 true StopOk /\ h_cancel (hs s 0) = true
-  /\ verdict (hist (rinit true true true) d4_schedule) = 0.
+  /\ verdict (hist (rinit true true true true) d4_schedule) = 0.
 Proof. vm_compute. repeat split. Qed.
 
 (** D14: the router is started empty; the first handler is added before the watcher goroutine
@@ -40,10 +40,10 @@ Definition d14_schedule : list label :=
 (** every handler has ended, Run waits, the watcher waits for a signal that was dropped:
     no goroutine of the router can ever move again *)
 Lemma d14_refuted :
-  let s := run (rinit true false true) d14_schedule in
+  let s := run (rinit true false true true) d14_schedule in
   nexth s = 1 /\ h_loop (hs s 0) = LDone /\ hwg s = 0 /\ mainp s = RWaitClosing /\ wat s = WSelect
   /\ hadded s = 0 /\ closedF s = false /\ stuck s 3 = true /\ panicked s = false
-  /\ verdict (hist (rinit true false true) d14_schedule ++ [ARunHung]) = 9.
+  /\ verdict (hist (rinit true false true true) d14_schedule ++ [ARunHung]) = 9.
 Proof. vm_compute. repeat split. Qed.
 
 Definition self_close_tail : list label :=
@@ -51,9 +51,9 @@ Definition self_close_tail : list label :=
    LMain CStep; LMain CStep].
 
 Lemma d14_fixed_witness :
-  let s := run (rinit true true true) (d14_schedule ++ self_close_tail) in
+  let s := run (rinit true true true true) (d14_schedule ++ self_close_tail) in
   mainp s = RDone true /\ wat s = WDone /\ closedCh s = true /\ hlock s = None /\ clock s = None
-  /\ verdict (hist (rinit true true true) (d14_schedule ++ self_close_tail)) = 0.
+  /\ verdict (hist (rinit true true true true) (d14_schedule ++ self_close_tail)) = 0.
 Proof. vm_compute. repeat split. Qed.
 
 (** D15 (known finding): the Run context of a router WITHOUT handlers is cancelled *)
@@ -61,17 +61,17 @@ Definition d15_schedule : list label :=
   [LRunCall 0; LT 0 CStep; LMain CStep; LMain CStep; LMain CStep; LMain CStep; LWatch CStep; LCancel].
 
 Lemma d15_refuted :
-  let s := run (rinit true true false) d15_schedule in
+  let s := run (rinit true true false true) d15_schedule in
   cctx s = true /\ nexth s = 0 /\ mainp s = RWaitClosing /\ wat s = WSelect /\ stuck s 2 = true
-  /\ verdict (hist (rinit true true false) d15_schedule ++ [ARunHung]) = 11.
+  /\ verdict (hist (rinit true true false true) d15_schedule ++ [ARunHung]) = 11.
 Proof. vm_compute. repeat split. Qed.
 
 (** the same schedule on the repaired watcher (select also waits for ctx.Done): the router closes itself *)
 Definition d15_tail : list label :=
   [LWatch CCtx; LWatch CStep; LWatch CStep; LWatch CStep; LWatch CStep; LWatch CStep; LWatch CStep; LWatch CStep; LMain CStep; LMain CStep].
 Lemma d15_fixed_witness :
-  let s := run (rinit true true true) (d15_schedule ++ d15_tail) in
-  mainp s = RDone true /\ wat s = WDone /\ closedCh s = true /\ verdict (hist (rinit true true true) (d15_schedule ++ d15_tail)) = 0.
+  let s := run (rinit true true true true) (d15_schedule ++ d15_tail) in
+  mainp s = RDone true /\ wat s = WDone /\ closedCh s = true /\ verdict (hist (rinit true true true true) (d15_schedule ++ d15_tail)) = 0.
 Proof. vm_compute. repeat split. Qed.
 
 (** with one handler the same cancellation closes the router *)
@@ -80,7 +80,7 @@ Definition cancel_schedule : list label :=
    LMain CStep; LMain CStep; LCancel; LSubCtx 0; LHC 0 false; LLoop 0; LLoop 0; LLoop 0; LLoop 0; LLoop 0]
   ++ [LWatch CStep; LWatch CStep; LWatch CStep; LWatch CStep; LWatch CStep; LWatch CStep; LWatch CStep; LMain CStep; LMain CStep].
 Lemma cancel_closes_witness :
-  let s := run (rinit true true true) cancel_schedule in mainp s = RDone true /\ h_stoppedCh (hs s 0) = true.
+  let s := run (rinit true true true true) cancel_schedule in mainp s = RDone true /\ h_stoppedCh (hs s 0) = true.
 Proof. vm_compute. repeat split. Qed.
 
 (** what sharing a publisher does: handlers 0 and 1 share publisher 0, handler 2 has its own.
@@ -93,9 +93,24 @@ Definition shared_schedule : list label :=
    LObsStarted 0; LStopCall 1 0; LT 1 CStep; LT 1 CStep; LSubCtx 0; LLoop 0; LLoop 0;
    LRecv 1; LPublish 1; LRecv 2; LPublish 2].
 Lemma shared_publisher_witness :
-  let s := run (rinit true true true) shared_schedule in
+  let s := run (rinit true true true true) shared_schedule in
   h_loop (hs s 1) = LRange /\ h_subOpen (hs s 1) = true /\ h_loop (hs s 2) = LRange /\ pubClosed s 0 = true /\ pubClosed s 1 = false
-  /\ rev (hist (rinit true true true) shared_schedule) = AProcessed 2 true :: AProcessed 1 false :: APubClose 0 :: AStopRet 1 StopOk :: 
-       skipn 4 (rev (hist (rinit true true true) shared_schedule))
-  /\ verdict (hist (rinit true true true) shared_schedule) = 0.
+  /\ rev (hist (rinit true true true true) shared_schedule) = AProcessed 2 true :: AProcessed 1 false :: APubClose 0 :: AStopRet 1 StopOk :: 
+       skipn 4 (rev (hist (rinit true true true true) shared_schedule))
+  /\ verdict (hist (rinit true true true true) shared_schedule) = 0.
+Proof. vm_compute. repeat split. Qed.
+
+(** D16 (C06's defect, seen through this model): a handler that was added but never started is
+    counted in handlersWg and nobody will ever call Done for it - Close waits although nothing
+    runs, and only the CloseTimeout ends the wait (Close returns the timeout error). *)
+Definition d16_schedule : list label := [LAdd None true; LCloseCall 0; LT 0 CStep; LT 0 CStep; LT 0 CStep].
+Lemma d16_refuted :
+  let s := run (rinit true true true false) d16_schedule in
+  thr s 0 = TClose KWait /\ hwg s = 1 /\ mainp s = RNone /\ wat s = WNone /\ h_loop (hs s 0) = LNone
+  /\ step s (LT 0 CStep) = None
+  /\ thr (run s [LT 0 CAlt; LT 0 CStep]) 0 = TClose (KRet false).
+Proof. vm_compute. repeat split. Qed.
+Lemma d16_fixed_witness :
+  let s := run (rinit true true true true) (d16_schedule ++ [LT 0 CStep; LT 0 CStep]) in
+  thr s 0 = TClose (KRet true) /\ hwg s = 0 /\ h_removed (hs s 0) = true /\ h_inmap (hs s 0) = false /\ panicked s = false.
 Proof. vm_compute. repeat split. Qed.
